@@ -1,0 +1,23 @@
+//! Verification hooks (`--cfg folo_verif` only): never compiled into normal builds.
+
+use std::sync::atomic::{AtomicUsize, Ordering};
+
+/// Called at named points of the implementation so that an out-of-tree harness can force
+/// particular interleavings.
+pub type PointHook = fn(name: &'static str);
+
+static POINT_HOOK: AtomicUsize = AtomicUsize::new(0);
+
+/// Installs (or with `None` removes) the yield point callback.
+pub fn install_point_hook(hook: Option<PointHook>) {
+    POINT_HOOK.store(hook.map_or(0, |h| h as usize), Ordering::SeqCst);
+}
+
+pub(crate) fn point(name: &'static str) {
+    let raw = POINT_HOOK.load(Ordering::Relaxed);
+    if raw != 0 {
+        // SAFETY: Only ever set from a `PointHook` function pointer.
+        let hook = unsafe { std::mem::transmute::<usize, PointHook>(raw) };
+        hook(name);
+    }
+}
